@@ -714,6 +714,32 @@ def check_cache_reads_own_key(ck, cm: CacheModel, R):
                   "read_result returns the value of the call's cache entry without having established that the entry's memento is the one asked "
                   "about (entry.memento.content_key == %s.content_key): the cache is keyed by call, so a memento obtained before the call was "
                   "memoized again is answered with the LATER result instead of the bytes it names" % mem, fa.where(r))
+    # ... the weak table answers for a call as well, and holds the bare result: nothing in it says which memento of the call
+    # the result belongs to, so a value served from it has to be tied to the asked memento some other way (K8)
+    if cm.refs:
+        for r in fa.returns():
+            for (v_, at_) in (value_sources(fa, r) if r.value is not None else []):
+                try:
+                    txt = fa.xnorm(v_, at_)
+                except AnalysisError:
+                    continue
+                if ("self." + cm.refs) not in txt:
+                    continue
+                ok = _reached_only_holding(ck, cm, fa, at_, mem, "") or _refs_tied_to_content_key(fa, cm, at_, mem)
+                ck.ob(R, fa.key(None, "weak-table-serves-asked-memento"), ok,
+                      "a result served from the weak table is tied to the memento asked about" if ok else
+                      "read_result serves a result from the weak table `%s` under the call's key alone: after the call was forgotten and memoized "
+                      "again with another (still alive, uncached: oversize or evicted) result, a memento obtained earlier reads the LATER result "
+                      "although its own bytes are untouched in the store" % cm.refs, fa.where(r))
+
+
+def _refs_tied_to_content_key(fa, cm, at, mem) -> bool:
+    """Every way to the read of the weak table passed a test that compares something recorded for the key with the asked
+    memento's content key (a parallel table of content keys, a key that includes the content key)."""
+    conds = fa.conditions(at) if at is not None else None
+    if not conds:
+        return False
+    return all(any(("%s.content_key" % mem) in t for (t, _p) in conj) for conj in conds)
 
 
 def _holds_same_memento(ck, cm, e, positive, mem, depth=0) -> bool:
